@@ -382,6 +382,9 @@ func loadKnown() []knownFinding {
 	return out
 }
 
+// retriedInconclusive is the number of cases that had no verdict after the first pass and were run again.
+var retriedInconclusive int
+
 // ParentMain runs all cases of property id in child processes and decides.
 func ParentMain(id, tier string, seed int64) int {
 	p := Get(id)
@@ -537,6 +540,7 @@ func ParentMain(id, tier string, seed int64) int {
 		}
 	}
 	retried := len(again)
+	retriedInconclusive = retried
 	if retried > 0 && os.Getenv("VERIF_NORETRY") == "" {
 		first := map[int]string{}
 		for _, sp := range again {
@@ -774,9 +778,10 @@ func decide(p *Property, tier string, seed int64, cases []Case, results map[int]
 		"monitor_counters":    counters,
 		"known_findings_hit":  knownHit,
 		"inconclusive_cases":  inconcList,
-		"race_build":          race,
-		"explanation":         p.Explain,
-		"slowest_cases":       slowest,
+		"cases_run_a_second_time_after_no_verdict": retriedInconclusive,
+		"race_build":    race,
+		"explanation":   p.Explain,
+		"slowest_cases": slowest,
 	}
 	if race {
 		cov["race_reports_observed"] = raceList
